@@ -186,6 +186,11 @@ func (m *maxInflightWrapper) SetLimit(acquireResult *AcquireResult) bool {
 			if inflight < localMax {
 				inflight = localMax
 			}
+			// the peak the meter has seen counts the local limiter's requests too and looks back past a
+			// lowered limit: the fallback stays within the configured global limit
+			if m.max > 0 && inflight > m.max && m.max >= localMax {
+				inflight = m.max
+			}
 			klog.V(2).Infof("[global maxInflight] cluster=%q resize flowcontrol=%s max=%v for error: %v",
 				m.fcc.cluster, m.fcc.name, inflight, result.Error)
 			m.FlowControl.Resize(uint32(inflight), 0)
